@@ -906,14 +906,14 @@ V("C14", "C14.R3", "c14-block-own-list", "shroud/ast.py",
 V("C14", "C14.R4", "c14-fattrs-replace", "shroud/ast.py",
   '            ast.attrs.update(kwargs["fattrs"])', '            ast.metaattrs.update(kwargs["fattrs"])', "fire", "fattrs")
 V("C14", "C14.R5", "c14-option-key", "shroud/main.py",
-  '''        if "options" in allinput:
-            allinput["options"].update(cmdoptions)
-        else:
-            allinput["options"] = cmdoptions''',
-  '''        if "option" in allinput:
-            allinput["option"].update(cmdoptions)
-        else:
-            allinput["option"] = cmdoptions''', "fire", "options")
+  '''        if not allinput.get("options"):
+            allinput["options"] = cmdoptions
+        elif isinstance(allinput["options"], dict):
+            allinput["options"].update(cmdoptions)''',
+  '''        if not allinput.get("option"):
+            allinput["option"] = cmdoptions
+        elif isinstance(allinput["option"], dict):
+            allinput["option"].update(cmdoptions)''', "fire", "options")
 V("C14", "C14.R6", "c14-inlocal-looks-up-chain", "shroud/util.py",
   '''        i.e. does not check parent.
         """
@@ -1641,12 +1641,12 @@ V("C02", "C02.R3", "c02-reference-not-dereferenced", "shroud/wrapc.py",
                     call_list.append(fmt_arg.cxx_var)''', "fire", "call[reference]")
 V("C02", "C02.R3", "c02-return-prefix", "shroud/statements.py",
   '''    if local_var == "scalar":
-        if arg.is_pointer():
+        if arg.is_indirect():
             return "&"
         else:
             return ""''',
   '''    if local_var == "scalar":
-        if arg.is_pointer():
+        if arg.is_indirect():
             return ""
         else:
             return "&"''', "fire", "compute_return_prefix")
@@ -2017,3 +2017,56 @@ V("C15", "C15.R9", "c15-descriptor-always-written", "shroud/wrapp.py",
   '''            if var.wrap.python:
                 self.wrap_class_variable(node, var, fileinfo)''',
   '''            self.wrap_class_variable(node, var, fileinfo)''', "fire", "wrap_class_variable")
+
+# ---------------------------------------------------------------------------
+# rows 89-93
+# ---------------------------------------------------------------------------
+V("C03", "C03.R19", "c03-submodule-init-skips-enums", "shroud/wrapp.py",
+  '''        output.extend(modinfo.type_object_creation)
+        output.extend(self.enum_impl)
+        if modinfo.call_arraydescr:
+            output.append("")
+            output.append("// Define PyArray_Descr for structs")
+            output.extend(modinfo.call_arraydescr)
+        append_format(output, submodule_end, fmt)''',
+  '''        output.extend(modinfo.type_object_creation)
+        if modinfo.call_arraydescr:
+            output.append("")
+            output.append("// Define PyArray_Descr for structs")
+            output.extend(modinfo.call_arraydescr)
+        append_format(output, submodule_end, fmt)''', "fire", "write_init_submodule")
+V("C03", "C03.R19", "c03-enum-list-not-per-module", "shroud/wrapp.py",
+  '''        enum_impl_outer = self.enum_impl
+        self.enum_impl = []
+''', '''        enum_impl_outer = self.enum_impl
+''', "fire", "per-module")
+V("C03", "C03.R20", "c03-list-twin-removed", "shroud/wrapp.py",
+  '''    dict(
+        name="py_native_*_result_allocatable_list",
+        base="py_native_*_result_pointer_list",
+    ),
+''', '', "fire", "py_native_*_result_allocatable")
+V("C02", "C02.R16", "c02-reference-result-dereferenced", "shroud/statements.py",
+  '''    elif local_var == "pointer":
+        if arg.is_indirect():
+            return ""''',
+  '''    elif local_var == "pointer":
+        if arg.is_pointer():
+            return ""''', "fire", "compute_return_prefix")
+V("C02", "C02.R16", "c02-silent-reference-or-pointer", "shroud/statements.py",
+  '''    elif local_var == "pointer":
+        if arg.is_indirect():
+            return ""''',
+  '''    elif local_var == "pointer":
+        if arg.is_pointer() or arg.is_reference():
+            return ""''', "silent")
+V("C02", "C02.R16", "c02-const-conversion-uncast", "shroud/wrapc.py",
+  '''                    if result_typemap.base == "string" and not CXX_ast.const:
+                        # c_str() is const, the declared result is not.
+                        fmt_result.c_val = "const_cast<char *>\\t({})".format(
+                            fmt_result.c_val)
+''', '', "fire", "cxx_to_c:const")
+V("C14", "C14.R11", "c14-this-call-per-class-only", "shroud/wrapc.py",
+  '''                    # CXX_this may be set for this function only.
+                    fmt_func.CXX_this_call = fmt_func.CXX_this + "->"
+''', '', "fire", "CXX_this_call")
